@@ -587,6 +587,35 @@ def run(idx: ProgramIndex, rep: Report, tier: str, selftest: bool = True):
                                           f"torch dispatch resolves `{m}` by name on {c.name} and reaches "
                                           f"{res.cls.name}.{m}, whose signature is not call-compatible: {why}", res.loc()))
 
+    # ---- T9: every parameter of a registered handler is consulted ---------------------------------
+    # A handler that never reads one of its parameters is constant in it; torch is not (offset=, dim1=, alpha=, upper=, ...),
+    # so the two disagree for some value of the argument unless the handler refuses (raises) unconditionally.
+    rep.rule("C15.T9", "a registered handler consults every parameter it accepts (or refuses unconditionally)", floor=25)
+    for m in names:
+        reg = base.methods.get(m)
+        if reg is None or not isinstance(reg.node, ast.FunctionDef):
+            continue
+        a = reg.node.args
+        params = [x.arg for x in list(a.posonlyargs) + list(a.args)][1:] + [x.arg for x in a.kwonlyargs]
+        if a.vararg:
+            params.append(a.vararg.arg)
+        if a.kwarg:
+            params.append(a.kwarg.arg)
+        body = [st for st in reg.node.body if not (isinstance(st, ast.Expr) and isinstance(st.value, ast.Constant))]
+        refuses = bool(body) and isinstance(body[0], ast.Raise)
+        in_messages = {id(x) for r_ in ast.walk(reg.node) if isinstance(r_, ast.Raise) for x in ast.walk(r_)}
+        # (a name that only appears in the text of an error message decides nothing)
+        loads = {x.id for x in ast.walk(reg.node) if isinstance(x, ast.Name) and isinstance(x.ctx, ast.Load) and id(x) not in in_messages}
+        for p_ in params:
+            sample = {"handler": f"LinearOperator.{m}", "parameter": p_}
+            if p_ in loads or refuses or p_.startswith("_"):
+                rep.ok("C15.T9", sample)
+            else:
+                rep.bad("C15.T9", Finding(PROP, "C15.T9", f"LinearOperator.{m}", f"parameter `{p_}` is never read",
+                                          f"LinearOperator.{m} is the registered handler of a torch function and accepts `{p_}`, but never "
+                                          f"reads it: the call returns the same result for every value of `{p_}`, where torch on the dense "
+                                          "matrix does not (the argument is silently ignored instead of honoured or refused)", reg.loc()))
+
     # ---- T3 ----------------------------------------------------------------------------------------
     check_torch_function(idx, rep, base)
 
